@@ -309,6 +309,8 @@ def build_script(ctx, items, warm=True, snap=True):
             s.add("forkpid", int(call["pid"][1:]))        # SnoopyCallMC!PidClasses: "p<number>"
         else:
             s.add("fork")
+        if sum(label.encode()) % 4 == 1 and not real:
+            s.add("threadstack", 256 * 1024)   # a quarter of the calls come from a thread with a 256 KiB stack (the configured limits go up to 1 MiB)
         if sum(label.encode()) % 3 == 0 and not real:
             s.add("stdin", "closed").add("emit", "closed0:" + label)   # a third of the callers have no descriptor 0 (daemons): whatever the library opens first gets number 0
         if f.get("out") in ("devlog", "default", "unknown") and f.get("sinkst", "ok") != "ok":
